@@ -145,8 +145,54 @@ static void fmt_set(hwloc_const_bitmap_t set, int fmt, char *buf, size_t n)
   if (fmt == 1) hwloc_bitmap_list_snprintf(buf, n, set); else if (fmt == 2) hwloc_bitmap_taskset_snprintf(buf, n, set); else hwloc_bitmap_snprintf(buf, n, set);
 }
 
+/* nodeset output (--no) on machines whose NUMA nodes hang below packages, optionally restricted so that some packages become CPU-less (they
+ * keep their NUMA nodes). Locations: pack:i, numa:m, pack:i.numa:j, pack:i.core:c. "Indexes specified in chained tuples are relative to the
+ * scope of the parent object" (hwloc(7)): the j-th NUMA node of a package is the j-th NUMA node, in logical order, that has this package
+ * among its ancestors - also when the package has no CPU left. The expected nodeset is the union of the nodesets of the named objects. */
+static void calc_nodeset_case(void)
+{
+  unsigned P = 2 + (unsigned)hv_below(&R, 5), A = 1 + (unsigned)hv_below(&R, 2), C = 1 + (unsigned)hv_below(&R, 3), U = 1 + (unsigned)hv_below(&R, 2);
+  snprintf(input_arg, sizeof input_arg, "pack:%u [numa]%s core:%u pu:%u", P, A == 2 ? " [numa]" : "", C, U);
+  T = NULL; hwloc_topology_init(&T); hwloc_topology_set_all_types_filter(T, HWLOC_TYPE_FILTER_KEEP_ALL);
+  if (hwloc_topology_set_synthetic(T, input_arg) != 0 || hwloc_topology_load(T) != 0) { hwloc_topology_destroy(T); T = NULL; return; }
+  char mask[200] = ""; int restricted = 0;
+  if (hv_chance(&R, 2, 3)) { hwloc_bitmap_t keep = hwloc_bitmap_alloc(); unsigned kept = 0;
+    for (unsigned i = 0; i < P; i++) if (hv_chance(&R, 1, 2)) { hwloc_bitmap_or(keep, keep, hwloc_get_obj_by_type(T, HWLOC_OBJ_PACKAGE, i)->cpuset); kept++; }
+    if (kept && kept < P && hwloc_topology_restrict(T, keep, 0) == 0) { hwloc_bitmap_snprintf(mask, sizeof mask, keep); restricted = 1; }
+    hwloc_bitmap_free(keep); }
+  hv_desc("input: %s%s%s\n", input_arg, restricted ? " --restrict " : "", mask);
+  unsigned np = (unsigned)hwloc_get_nbobjs_by_type(T, HWLOC_OBJ_PACKAGE), nn = (unsigned)hwloc_get_nbobjs_by_type(T, HWLOC_OBJ_NUMANODE);
+  hwloc_bitmap_t want = hwloc_bitmap_alloc(); char terms[4][64]; unsigned nt = 1 + (unsigned)hv_below(&R, 3), made = 0, cpuless_parent = 0;
+  for (unsigned k = 0; k < nt && np; k++) {
+    unsigned kind = (unsigned)hv_below(&R, 4), pi = (unsigned)hv_below(&R, np); hwloc_obj_t pk = hwloc_get_obj_by_type(T, HWLOC_OBJ_PACKAGE, pi);
+    if (kind == 0) { snprintf(terms[made], 64, "pack:%u", pi); hwloc_bitmap_or(want, want, pk->nodeset); made++; }
+    else if (kind == 1 && nn) { unsigned m = (unsigned)hv_below(&R, nn); snprintf(terms[made], 64, "numa:%u", m); hwloc_bitmap_or(want, want, hwloc_get_obj_by_type(T, HWLOC_OBJ_NUMANODE, m)->nodeset); made++; }
+    else if (kind == 2) { hwloc_obj_t below[8]; unsigned nb = 0; for (hwloc_obj_t n = NULL; (n = hwloc_get_next_obj_by_type(T, HWLOC_OBJ_NUMANODE, n)) != NULL && nb < 8; ) { for (hwloc_obj_t a = n->parent; a; a = a->parent) if (a == pk) { below[nb++] = n; break; } }
+      if (!nb) continue; unsigned j = (unsigned)hv_below(&R, nb); snprintf(terms[made], 64, "pack:%u.numa:%u", pi, j); hwloc_bitmap_or(want, want, below[j]->nodeset); made++; if (hwloc_bitmap_iszero(pk->cpuset)) cpuless_parent = 1; }
+    else { if (hwloc_bitmap_iszero(pk->cpuset)) continue; unsigned nc = (unsigned)hwloc_get_nbobjs_inside_cpuset_by_type(T, pk->cpuset, HWLOC_OBJ_CORE); if (!nc) continue; unsigned c = (unsigned)hv_below(&R, nc);
+      snprintf(terms[made], 64, "pack:%u.core:%u", pi, c); hwloc_bitmap_or(want, want, hwloc_get_obj_inside_cpuset_by_type(T, pk->cpuset, HWLOC_OBJ_CORE, c)->nodeset); made++; }
+  }
+  if (made) {
+    char *args[24]; int a = 0; args[a++] = "-i"; args[a++] = input_arg; if (restricted) { args[a++] = "--restrict"; args[a++] = mask; } args[a++] = "-q"; args[a++] = hv_chance(&R, 1, 2) ? "--no" : "--nodeset-output";
+    for (unsigned k = 0; k < made; k++) args[a++] = terms[k]; args[a] = NULL;
+    args_desc("hwloc-calc", args); hv_ctxkey("calc_nodeset");
+    struct run r; run_tool("hwloc-calc", args, NULL, &r);
+    if (!tool_died("hwloc-calc", &r)) {
+      if (!r.exited || r.code) hv_viol("calc.nodeset.failed", "hwloc-calc exited with %d: %.300s", r.code, r.err.s);
+      else { hwloc_bitmap_t got = hwloc_bitmap_alloc(); char line[512]; snprintf(line, sizeof line, "%.500s", r.out.s); char *nl = strchr(line, '\n'); if (nl) *nl = 0;
+        if (hwloc_bitmap_sscanf(got, line) != 0) hv_viol("calc.nodeset.unparsable", "output \"%.100s\" is not a bitmap", line);
+        else if (!hwloc_bitmap_isequal(got, want)) { char w[200]; hwloc_bitmap_snprintf(w, sizeof w, want); hv_viol(cpuless_parent ? "calc.nodeset.cpuless_parent" : "calc.nodeset", "nodeset output is %s, the named objects have nodeset %s", line, w); }
+        hwloc_bitmap_free(got); hv_stat("calc.nodeset_commands", 1); if (cpuless_parent) hv_stat("calc.nodeset_commands_with_cpuless_parent", 1);
+        hv_distinct(1, hv_hash_u64(P * 1000 + A * 100 + made * 10 + (unsigned)restricted, hv_hash_str(terms[0], 3))); }
+    }
+    run_free(&r);
+  }
+  hwloc_bitmap_free(want); hwloc_topology_destroy(T); T = NULL;
+}
+
 static void calc_case(uint64_t index)
 {
+  if ((index / 10) % 8 == 5) { calc_nodeset_case(); return; }
   if (!load_input(index, 0)) { hv_stat("input_rejected", 1); return; }
   collect_levels();
   if (NL < 2) { hwloc_topology_destroy(T); return; }
